@@ -75,31 +75,43 @@ class SymFloat(object):
 
 
 class SymDecimal(object):
-    """exact rational  num / 10^scale  (decimal.Decimal as parsed from JSON text)"""
-    __slots__ = ('num', 'scale')
+    """exact rational  num / den  (decimal.Decimal as parsed from JSON text; Decimal arithmetic is exact for the
+    products the library forms, so it is modelled algebraically)"""
+    __slots__ = ('num', 'den')
 
     def __init__(self, num, scale):
         self.num = num
-        self.scale = scale
+        self.den = 10 ** scale
 
     def __mul__(self, o):
         if isinstance(o, (int, SymInt)):
-            return SymDecimal(self.num * o, self.scale)
+            r = SymDecimal(self.num, 0)
+            if isinstance(o, int) and not isinstance(o, bool):
+                import math
+                g = math.gcd(o, self.den)
+                r.num = self.num * (o // g)
+                r.den = self.den // g
+            else:
+                r.num = self.num * o
+                r.den = self.den
+            return r
         return NotImplemented
     __rmul__ = __mul__
 
     def to_int(self):
         # int(Decimal) truncates toward zero
-        d = 10 ** self.scale
+        d = self.den
         n = self.num
+        if d == 1:
+            return n
         q = n // d
         if isinstance(n, SymInt) or isinstance(q, SymInt):
             neg_adj = s_ite((n < 0) & ((n % d) != 0), 1, 0)
             return q + neg_adj
-        return int(n / d) if False else (q + (1 if (n < 0 and n % d) else 0))
+        return q + (1 if (n < 0 and n % d) else 0)
 
     def __repr__(self):
-        return 'SymDecimal(%r/1e%d)' % (self.num, self.scale)
+        return 'SymDecimal(%r/%d)' % (self.num, self.den)
 
 
 def truediv(a, b):
